@@ -101,3 +101,13 @@ Definition pm_pop (m : m2m) (d : msel) (k : nat) : res (list nat * m2m) :=
 (* for v in vals: body   (no break / return in the body) *)
 Definition pm_for (vals : list nat) (body : m2m -> nat -> res (val * m2m)) (m : m2m) : res m2m :=
   fold_left (fun acc v => bind acc (fun m => bind (body m v) (fun r => Ok (snd r)))) vals (Ok m).
+
+(* D.setdefault(k, set()).update(vals) : the set stored under k (a fresh one if absent) absorbs vals *)
+Definition pm_setdefault_update (m : m2m) (d : msel) (k : nat) (vals : list nat) : m2m :=
+  match d_get (msel_get m d) k with
+  | Some s => mput m d (d_set (msel_get m d) k (s_union s vals))
+  | None => mput m d (d_set (msel_get m d) k (s_union [] vals))
+  end.
+(* evaluating D[k] only to bind a local alias of the stored set: KeyError if absent *)
+Definition pm_lookup (m : m2m) (d : msel) (k : nat) : res unit :=
+  match d_get (msel_get m d) k with Some _ => Ok tt | None => Raise KeyError end.
